@@ -106,10 +106,18 @@ class Flow(object):
         if isinstance(st, (ast.For, ast.AsyncFor)):
             self.on_stmt(st, state)
             it = frozenset(self.classify(st.iter, state)) | {'<elem>'}
+            zipped = None
+            if isinstance(st.iter, ast.Call) and isinstance(st.iter.func, ast.Name) and st.iter.func.id == 'zip' \
+                    and isinstance(st.target, (ast.Tuple, ast.List)) and len(st.target.elts) == len(st.iter.args):
+                zipped = st.iter.args
             cur = dict(state)
             for _ in range(4):
                 body_state = dict(cur)
-                self.bind(st.target, it, body_state, st)
+                if zipped is not None:
+                    for t, a in zip(st.target.elts, zipped):
+                        self.bind(t, frozenset(self.classify(a, body_state)) | {'<elem>'}, body_state, st)
+                else:
+                    self.bind(st.target, it, body_state, st)
                 end = self.block(st.body, body_state)
                 new = join(cur, end) if end is not None else cur
                 if new == cur:
